@@ -77,7 +77,7 @@ theorem clone_exception_safe {src : Raw K V} (hsrc : Inv E src) (w : World K V Q
 example : (step (K := Nat) (V := Nat) (Q := Nat)
     { eqK := fun _ a b => a == b, eqQ := fun _ a b => a == b, eqV := fun a b => a == b, borrow := id,
       clK := fun _ k => k, clV := fun _ v => v }
-    { dbgK := toString, dbgV := toString, dspK := toString, dspV := toString }
+    { dbgK := fun _ => toString, dbgV := fun _ => toString, dspK := toString, dspV := toString }
     (Sys.init (fun _ => 2) (fun _ => 2) {}) (.inject 0)).1.w.inject = some 0 := rfl
 
 end Micromap.Props.C04
